@@ -12,6 +12,7 @@ package main
 // ones, so "unsat" from it is a proof; "sat" from it is never believed.
 
 import (
+	"regexp"
 	"fmt"
 	"go/types"
 	"strings"
@@ -240,24 +241,10 @@ func (g *Gen) seeIndex(term string) {
 	}
 }
 
-// lightGoal prepares the quantifier-free variant of an obligation whose clause has the
-// shape pre ==> forall i int {, j int} :: body (possibly behind a spec function).
+// lightGoal prepares the quantifier-free variant of an obligation whose clause is a conjunction of
+// parts of the shape pre ==> forall i int {, j int} :: body (possibly behind spec functions) or
+// quantifier-free parts: every universal is skolemised with its own constants.
 func (g *Gen) lightGoal(o *Obligation, e Expr, env *Env, cond string) {
-	var pre []Expr
-	for {
-		e = g.inlineSpec(e, 0)
-		b, ok := e.(*EBinary)
-		if !ok || b.Op != "==>" {
-			break
-		}
-		pre = append(pre, b.X)
-		e = b.Y
-	}
-	e = g.inlineSpec(e, 0)
-	q, ok := e.(*EQuant)
-	if !ok || !q.Forall || !allIntVars(q.Vars) {
-		return
-	}
 	defer func() {
 		if r := recover(); r != nil {
 			if _, ok := r.(specError); ok {
@@ -282,19 +269,54 @@ func (g *Gen) lightGoal(o *Obligation, e Expr, env *Env, cond string) {
 		}
 		defer func() { g.sideFact = savedSide }()
 	}
-	ne := env.child()
 	var sks []string
-	for _, v := range q.Vars {
-		sk := g.freshConst("sk."+sanitize(v.Name), "Int")
-		ne.vars[v.Name] = &SV{S: sk, T: types.Typ[types.Int]}
-		sks = append(sks, sk)
+	nq := 0
+	var conj func(e Expr, pre []Expr, ne *Env) string
+	conj = func(e Expr, pre []Expr, ne *Env) string {
+		e = g.inlineSpec(e, 0)
+		switch x := e.(type) {
+		case *EBinary:
+			if x.Op == "&&" {
+				return and(conj(x.X, pre, ne), conj(x.Y, pre, ne))
+			}
+			if x.Op == "==>" {
+				return conj(x.Y, append(append([]Expr{}, pre...), x.X), ne)
+			}
+		case *EQuant:
+			if x.Forall && allIntVars(x.Vars) {
+				nq++
+				ce := ne.child()
+				for _, v := range x.Vars {
+					sk := g.freshConst("sk."+sanitize(v.Name), "Int")
+					ce.vars[v.Name] = &SV{S: sk, T: types.Typ[types.Int]}
+					sks = append(sks, sk)
+				}
+				return conj(x.Body, pre, ce)
+			}
+		}
+		var pres []string
+		for _, p := range pre {
+			pres = append(pres, ne.eval(p).S)
+		}
+		goal := ne.eval(e).S
+		if c, ok := e.(*ECall); ok {
+			switch c.Fun {
+			case "preserved", "keptExcept", "keptSince", "keptExceptSince", "sameExcept":
+				// frame builtins expand to generated universals over r! (and j!)
+				if sk, names := g.skolemiseGenerated(goal); len(names) > 0 {
+					nq++
+					sks = append(sks, names...)
+					goal = sk
+				}
+			}
+		}
+		return implies(and(pres...), goal)
 	}
-	var pres []string
-	for _, p := range pre {
-		pres = append(pres, ne.eval(p).S)
+	body := conj(e, nil, env.child())
+	if nq == 0 || len(sks) > 8 {
+		return // nothing to skolemise (the full query is quantifier-free in the goal) or too many parts
 	}
-	body := ne.eval(q.Body).S
-	o.LightGoal = implies(cond, implies(and(pres...), body))
+	o.LightGoal = implies(cond, body)
 	// candidate terms: the skolems, their neighbours, and the index terms the code used recently
 	var cands []string
 	los := g.sliceLos
@@ -303,7 +325,10 @@ func (g *Gen) lightGoal(o *Obligation, e Expr, env *Env, cond string) {
 	}
 	var shifted []string
 	for _, sk := range sks {
-		cands = append(cands, sk, "(- "+sk+" 1)", "(+ "+sk+" 1)")
+		cands = append(cands, sk)
+		if len(sks) == 1 {
+			cands = append(cands, "(- "+sk+" 1)", "(+ "+sk+" 1)")
+		}
 		for _, lo := range los {
 			shifted = append(shifted, "(+ "+sk+" "+lo+")")
 		}
@@ -328,17 +353,97 @@ func (g *Gen) lightGoal(o *Obligation, e Expr, env *Env, cond string) {
 			continue
 		}
 		if len(h.qvs) == 2 {
-			pool := append(append(append([]string{}, sks...), shifted...), extra...)
-			for _, a := range pool {
-				for _, b := range pool {
-					if f := g.instMulti(h, []string{a, b}); f != "" {
-						o.LightExtra = append(o.LightExtra, f)
+			// pairs: skolem x skolem, skolem x recent index, and (for goals about sub-slices)
+			// shifted skolems with skolems or with shifted skolems of the same lower bound
+			var pairs [][2]string
+			for _, a := range sks {
+				for _, b := range sks {
+					pairs = append(pairs, [2]string{a, b})
+				}
+				for _, x := range extra {
+					pairs = append(pairs, [2]string{a, x}, [2]string{x, a})
+				}
+				for _, sh := range shifted {
+					pairs = append(pairs, [2]string{a, sh}, [2]string{sh, a})
+				}
+			}
+			for _, lo := range los {
+				for _, a := range sks {
+					for _, b := range sks {
+						pairs = append(pairs, [2]string{"(+ " + a + " " + lo + ")", "(+ " + b + " " + lo + ")"})
 					}
+				}
+			}
+			for _, p := range pairs {
+				if f := g.instMulti(h, []string{p[0], p[1]}); f != "" {
+					o.LightExtra = append(o.LightExtra, f)
 				}
 			}
 		}
 	}
 	g.presInstances(o)
+	// drop duplicates
+	seenX := map[string]bool{}
+	out := o.LightExtra[:0]
+	for _, f := range o.LightExtra {
+		if !seenX[f] {
+			seenX[f] = true
+			out = append(out, f)
+		}
+	}
+	o.LightExtra = out
+}
+
+var boundTokRe = map[string]*regexp.Regexp{}
+
+func replaceTok(s, tok, by string) string {
+	re := boundTokRe[tok]
+	if re == nil {
+		re = regexp.MustCompile(`(^|[ ()])` + regexp.QuoteMeta(tok) + `($|[ ()])`)
+		boundTokRe[tok] = re
+	}
+	for {
+		n := re.ReplaceAllString(s, "${1}"+by+"${2}")
+		if n == s {
+			return s
+		}
+		s = n
+	}
+}
+
+// skolemiseGenerated replaces every generated "(forall (binders) (! body :pattern ...))" in s by its
+// body with the binders renamed to fresh constants (valid when s is a goal to be proved).
+func (g *Gen) skolemiseGenerated(s string) (string, []string) {
+	var names []string
+	for {
+		k := strings.Index(s, "(forall (")
+		if k < 0 {
+			return s, names
+		}
+		end := sexpEnd(s, k)
+		bStart := k + len("(forall ")
+		bEnd := sexpEnd(s, bStart)
+		if end < 0 || bEnd < 0 || !strings.HasPrefix(s[bEnd:], " (! ") {
+			return s, nil
+		}
+		bodyStart := bEnd + len(" (! ")
+		bodyEnd := sexpEnd(s, bodyStart)
+		if bodyEnd < 0 {
+			return s, nil
+		}
+		body := s[bodyStart:bodyEnd]
+		// binders: ((r! Int) (j! Int))
+		for _, b := range strings.Split(strings.Trim(s[bStart:bEnd], "()"), ") (") {
+			f := strings.Fields(b)
+			if len(f) != 2 || f[1] != "Int" {
+				return s, nil
+			}
+			sk := g.freshConst("sk."+sanitize(strings.TrimSuffix(f[0], "!")), "Int")
+			names = append(names, sk)
+			body = replaceTok(body, f[0], sk)
+		}
+		s = s[:k] + body + s[end:]
+	}
 }
 
 // presInstances adds, for every assumed "preserved(heap)" relation cur/old and every reference term r
@@ -420,18 +525,22 @@ func (g *Gen) presInstances(o *Obligation) {
 		var added []string
 		for _, pr := range g.presRels {
 			if pr.except != "" {
-				for _, rj := range elems[heapKeyOfSym(pr.cur)] {
+				for _, rj := range elems[pr.key] {
 					key := pr.cur + "|" + rj[0] + "|" + rj[1]
 					if seen[key] {
 						continue
 					}
 					seen[key] = true
-					exc := strings.ReplaceAll(strings.ReplaceAll(pr.except, "r!", rj[0]), "j!", rj[1])
-					added = append(added, implies(pr.reach, fmt.Sprintf("(=> (and (<= %[1]s %[2]s) (not %[3]s)) (= (select (select %[4]s %[1]s) %[5]s) (select (select %[6]s %[1]s) %[5]s)))", rj[0], pr.alloc, exc, pr.cur, rj[1], pr.old)))
+					exc := replaceTok(replaceTok(pr.except, "r!", rj[0]), "j!", rj[1])
+					bound := "true"
+					if pr.alloc != "" {
+						bound = "(<= " + rj[0] + " " + pr.alloc + ")"
+					}
+					added = append(added, implies(pr.reach, fmt.Sprintf("(=> (and %[2]s (not %[3]s)) (= (select (select %[4]s %[1]s) %[5]s) (select (select %[6]s %[1]s) %[5]s)))", rj[0], bound, exc, pr.cur, rj[1], pr.old)))
 				}
 				continue
 			}
-			for _, ref := range refs[heapKeyOfSym(pr.cur)] {
+			for _, ref := range refs[pr.key] {
 				key := pr.cur + "|" + ref
 				if seen[key] {
 					continue
